@@ -187,7 +187,7 @@ def run_property(pid: str, tier: str, seed: int) -> int:
         print(f"CHECKER-ERROR: property {pid} has no check")
         return 3
     timeout = 20 if tier == "quick" else 90
-    cons = [c for c in engine.REGISTRY.values() if pid in c.props and c.verify]
+    cons = [c for c in engine.REGISTRY.values() if (pid in c.props or pid in c.partial_props) and c.verify]
     assumed = [c for c in engine.REGISTRY.values() if pid in c.props and not c.verify]
     obligations = []
     fn_reports = []
@@ -200,6 +200,9 @@ def run_property(pid: str, tier: str, seed: int) -> int:
             traceback.print_exc()
             print(f"CHECKER-ERROR: internal error while executing {con.qual}: {e!r}")
             return 3
+        if pid not in con.props:
+            frags = con.partial_props[pid]
+            rep.obligations = [o for o in rep.obligations if any(f in o.name for f in frags)]
         fn_reports.append(rep)
         for f in rep.failures:
             failures.append((f"{pid}/{con.name}/supported", "unsupported", f))
